@@ -237,7 +237,10 @@ func Coverage2x() Coverage {
 			emptyTo(459)
 			add(g(drive.BlockSpec{}))
 			add(g(drive.BlockSpec{})) // 460 mint
-			add(g(drive.BlockSpec{}))
+			// 461: the mint address receives an asset that was never minted (pEUR) and one that was: the mint burn takes back
+			// what is left of the minted assets only
+			mintAddr, _ := factom.NewFAAddress(c15MintAddress)
+			add(g(drive.BlockSpec{TX: []fake.Entry{b.Tx(KA, kit.Transfer(A, "pEUR", 3e8, mintAddr), kit.Transfer(A, "pUSD", 1e8, mintAddr))}}))
 			emptyTo(469)
 			add(g(drive.BlockSpec{}))
 			add(g(drive.BlockSpec{})) // 470 burn of minted
